@@ -1,0 +1,48 @@
+//go:build verif
+
+// Contracts for govc (contract-based deductive verification, /verif). Comment-only file:
+// it is compiled only under the build tag "verif" and contains no code.
+
+package mod_header
+
+// the field names used here are already canonical (a fact about the abstract canonicalisation function)
+//@ spec addrNamesCanonical() bool := canonKey("X-Real-Ip") == "X-Real-Ip" && canonKey("X-Real-Port") == "X-Real-Port" && canonKey("X-Forwarded-For") == "X-Forwarded-For" && canonKey("X-Forwarded-Port") == "X-Forwarded-Port" && canonKey("X-Forwarded-Host") == "X-Forwarded-Host"
+
+//@ func setHeaderRealAddr
+//@   props C29
+//@   nopanic
+//@   requires req != nil && req.HttpRequest != nil && req.HttpRequest.Header != nil && addrNamesCanonical()
+//@   modifies req.HttpRequest.Header[..]
+//@   ensures[real_address_headers_replace_whatever_the_client_sent] hdrGet(req.HttpRequest.Header, "X-Real-Ip") == clientIP && len(req.HttpRequest.Header["X-Real-Ip"]) == 1 && hdrGet(req.HttpRequest.Header, "X-Real-Port") == clientPort && len(req.HttpRequest.Header["X-Real-Port"]) == 1
+
+//@   ensures[other_fields_are_kept] forall k string :: k != "X-Real-Ip" && k != "X-Real-Port" ==> (has(req.HttpRequest.Header, k) <==> old(has(req.HttpRequest.Header, k))) && sameslice(req.HttpRequest.Header[k], old(req.HttpRequest.Header[k]))
+
+//@ func modHeaderForwardedAddr
+//@   props C29
+//@   nopanic
+//@   requires req != nil && req.HttpRequest != nil && req.HttpRequest.Header != nil && addrNamesCanonical()
+//@   modifies req.HttpRequest.Header[..]
+//@   let h := req.HttpRequest.Header
+//@   let peer := req.HttpRequest.RemoteAddr
+//@   ensures[forwarded_for_is_a_single_value] splitsHostPort(peer) ==> len(h["X-Forwarded-For"]) == 1
+//@   ensures[forwarded_for_of_a_first_hop_is_the_peer_address] splitsHostPort(peer) && !old(has(h, "X-Forwarded-For")) ==> h["X-Forwarded-For"][0] == hostOf(peer)
+//@   ensures[forwarded_for_keeps_prior_values_and_ends_with_the_peer_address] splitsHostPort(peer) && old(has(h, "X-Forwarded-For")) ==> h["X-Forwarded-For"][0] == joined(old(h["X-Forwarded-For"]), ", ") + ", " + hostOf(peer)
+//@   ensures[forwarded_port_is_a_single_value] splitsHostPort(peer) ==> len(h["X-Forwarded-Port"]) == 1
+//@   ensures[forwarded_port_of_a_first_hop_is_the_peer_port] splitsHostPort(peer) && !old(has(h, "X-Forwarded-Port")) ==> h["X-Forwarded-Port"][0] == portOf(peer)
+//@   ensures[forwarded_port_keeps_prior_values_and_ends_with_the_peer_port] splitsHostPort(peer) && old(has(h, "X-Forwarded-Port")) ==> h["X-Forwarded-Port"][0] == joined(old(h["X-Forwarded-Port"]), ", ") + ", " + portOf(peer)
+//@   ensures[real_address_headers_are_not_touched_here] (has(h, "X-Real-Ip") <==> old(has(h, "X-Real-Ip"))) && sameslice(h["X-Real-Ip"], old(h["X-Real-Ip"]))
+
+//@ func setHeaderBfeIP
+//@   props C29
+//@   requires req != nil && req.HttpRequest != nil && req.HttpRequest.Header != nil && req.Connection != nil && addrNamesCanonical() && canonKey("X-Bfe-Ip") == "X-Bfe-Ip"
+//@   frame LocalAddr pure
+//@   note the connection's LocalAddr() is assumed to write nothing
+//@   modifies req.HttpRequest.Header[..]
+//@   ensures[only_the_bfe_ip_header_is_touched] forall k string :: k != "X-Bfe-Ip" ==> (has(req.HttpRequest.Header, k) <==> old(has(req.HttpRequest.Header, k))) && sameslice(req.HttpRequest.Header[k], old(req.HttpRequest.Header[k]))
+
+//@ func (*ModuleHeader).setDefaultHeader
+//@   props C29
+//@   requires m != nil && request != nil && request.HttpRequest != nil && request.HttpRequest.Header != nil && request.Session != nil && request.RemoteAddr != nil && request.Connection != nil && addrNamesCanonical() && canonKey("X-Bfe-Ip") == "X-Bfe-Ip"
+//@   modifies request.HttpRequest.Header[..]
+//@   ensures[real_ip_sent_upstream_is_the_client_address_bfe_determined] request.ClientAddr != nil ==> hdrGet(request.HttpRequest.Header, "X-Real-Ip") == ipString(request.ClientAddr.IP) && len(request.HttpRequest.Header["X-Real-Ip"]) == 1
+//@   ensures[forwarded_for_ends_with_the_peer_address] splitsHostPort(request.HttpRequest.RemoteAddr) ==> len(request.HttpRequest.Header["X-Forwarded-For"]) == 1 && (request.HttpRequest.Header["X-Forwarded-For"][0] == hostOf(request.HttpRequest.RemoteAddr) || request.HttpRequest.Header["X-Forwarded-For"][0] == joined(old(request.HttpRequest.Header["X-Forwarded-For"]), ", ") + ", " + hostOf(request.HttpRequest.RemoteAddr))
